@@ -29,6 +29,12 @@ func NewEnv(ops []spec.Op) *Env {
 	return e
 }
 
+// NewEnvCased builds the real policy with re-cased name arguments (the shadow model is
+// case-insensitive by construction).
+func NewEnvCased(ops []spec.Op, c spec.Casing) *Env {
+	return &Env{Ops: ops, Spec: spec.FromOps(ops), Pol: spec.BuildCased(ops, c), attrCands: map[string][]string{}}
+}
+
 var allElementVocab = func() []string {
 	var v []string
 	for _, l := range [][]string{gen.ElOrdinary, gen.ElVoid, gen.ElRawText, gen.ElSkip, gen.ElForeign, gen.ElCustom, gen.ElMedia, gen.ElDanger, gen.ElOdd} {
